@@ -22,6 +22,7 @@ class VConn(object):
         self.c2s = bytearray()       # everything the client sent, in order
         self.sends = []              # (agent id, bytes, consumed) per send call
         self.consumed = 0            # s2c bytes the client has read so far
+        self.hist = 0                # running hash of the send history
         self.fed = 0                 # send calls already shown to the server
         self.s2c = bytearray()       # readable by the client now
         self.outbox = bytearray()    # pushed by the server, not yet delivered
@@ -139,6 +140,8 @@ class VSocket(object):
                 raise BrokenPipeError(errno.EPIPE, 'Broken pipe')
         c.c2s += data
         c.sends.append((S.me().id, data, c.consumed))
+        if S.window:        # before the window everything is scripted
+            c.hist = hash((c.hist, S.me().id, data, c.consumed))
         S.event('send', c.id, S.me().id, data)
         S.effect()
         if self.net.eager and c.server is not None:
